@@ -222,6 +222,7 @@ Proof.
   - destruct (resolve_name ct st c ci name prefix) as [nm|k]; [|apply callok_err; exact I].
     destruct sst as [ss|]; [|apply callok_err; exact I].
     destruct (negb (Nat.eqb (length es) (length ss))); [apply callok_err; exact I|].
+    destruct (Nat.eqb (length (make_strand_table_list sPlus (map fst es))) 0); [apply callok_err; exact I|].
     destruct (rot_loop _ 0 (cs_canon (cget st c)) (map fst es) ss []) as [[ex cdict]|k] eqn:ER;
       [|apply callok_err; exact I].
     apply rot_loop_fresh in ER; [|intros k []]. destruct ER as [F1 F2].
